@@ -116,22 +116,26 @@ func (s *Stream) logDroppedDataWithThrottling() {
 
 // callSinksAsync asynchronously calls all sink functions
 func (s *Stream) callSinksAsync(results []map[string]any) {
-	// Safely access sinks slice using read lock
+	// Snapshot the sink slices under the read lock and release it before any
+	// sink runs. Holding the lock across the calls deadlocks a sink that calls
+	// AddSink/AddSyncSink on the same stream (write lock requested by the read
+	// lock's owner), and submitSinkTask may run a sink inline when the pool is full.
+	// AddSink only appends, so the slice headers read here stay valid snapshots.
 	s.sinksMux.RLock()
-	defer s.sinksMux.RUnlock()
+	sinks := s.sinks[:len(s.sinks):len(s.sinks)]
+	syncSinks := s.syncSinks[:len(s.syncSinks):len(s.syncSinks)]
+	s.sinksMux.RUnlock()
 
-	if len(s.sinks) == 0 && len(s.syncSinks) == 0 {
+	if len(sinks) == 0 && len(syncSinks) == 0 {
 		return
 	}
 
-	// Directly iterate sinks slice to avoid copy overhead
-	// Since submitSinkTask is async, won't hold lock for long time
-	for _, sink := range s.sinks {
+	for _, sink := range sinks {
 		s.submitSinkTask(sink, results)
 	}
 
 	// Execute synchronous sinks (blocking, sequential)
-	for _, sink := range s.syncSinks {
+	for _, sink := range syncSinks {
 		// Recover panic for each sync sink to prevent crashing the stream
 		func() {
 			defer func() {
